@@ -10,7 +10,7 @@
    `ks` over every resolution of the either/with choices; `fuel` over every evaluation depth.
    Model: C02/Lang.v (values, expressions, eval), C02/Sem.v (decision trees, run, the two
    symbolic executions, the checker). *)
-From PGV Require Import C02.Lang C02.Sem C02.Proofs C02.Mono.
+From PGV Require Import C02.Lang C02.Sem C02.Proofs C02.Mono C02.Subst.
 Open Scope string_scope.
 
 (* The checker is sound: trees it accepts behave identically under the single interpreter `run`,
@@ -49,6 +49,19 @@ Theorem run_fuel_monotone : forall D t f f' r ks, (f <= f')%nat ->
   not_err (run D f t r ks) -> run D f' t r ks = run D f t r ks.
 Proof. exact run_fuel_mono. Qed.
 Print Assumptions run_fuel_monotone.
+
+(* The substitution lemma for `subst` on the binder-free fragment `bf` (C02/Subst.v: no LET / function constructor /
+   quantifier / comprehension / CHOOSE, no EXCEPT, no TState/TPrime, no `x \in T` with a bare temporary T): inlining the
+   temporaries' expressions (what the symbolic execution does) yields the value the direct, eager evaluation with the
+   temporaries bound to their values yields, given enough fuel. First step towards dtree_sound_go, which is NOT proved. *)
+Theorem subst_binder_free_fragment : forall D locals selfe scratch S m r K,
+  e_ldefs r = [] ->
+  (forall x v, lookup x (e_vars r) = Some v -> exists e', lookup x m = Some e' /\ eval D K (noenv r) e' = Ok v) ->
+  (forall f e', lookup f m = Some e' -> forall g, e' <> Nd (TVar g) []) ->
+  forall f e v, bf e = true -> eval D f r e = Ok v ->
+                eval D (f + K) (noenv r) (subst locals selfe scratch S m e) = Ok v.
+Proof. exact subst_bf. Qed.
+Print Assumptions subst_binder_free_fragment.
 
 (* non-vacuity: two syntactically different trees with a choice, a branch and a commit are accepted
    (the normaliser removes the constant test), and a tree differing in one written expression,
